@@ -280,7 +280,60 @@ def strict_gates(chk: Check) -> None:
                                 chk.ok(rule2, inst, {"same_as_logical_type": baseline[False][0]})
 
 
+def declared_sizes(chk: Check, rule: str = "C13.TABLE.declared-sizes-are-table-sizes") -> None:
+    """C13.TABLE.declared-sizes-are-table-sizes: on every construction path on which the LIBRARY chooses the encoder, the
+    options or both (no options given; options guessed from the sink; `for_rdflib`), the three table sizes announced
+    in the options row are the sizes of the encoder's own tables.  (A caller who passes an encoder and options that
+    disagree is outside the property; the library's own defaults are not.)"""
+    from .. import corpus as C
+    from .. import models_rdflib as R
+    from .. import pipe as P
+
+    def sizes_of(k: K.Kit, stream: Any) -> tuple:
+        k.method(stream, "enroll")
+        frame = k.method(k.attr(stream, "flow"), "to_stream_frame")
+        o = K.Kit.rows_of(frame)[0].fields.get("options")
+        declared = tuple(o.fields.get(f, 0) for f in ("max_name_table_size", "max_prefix_table_size", "max_datatype_table_size"))
+        actual = tuple(k.attr(stream, f"encoder.{t}.lookup.max_size") for t in ("names", "prefixes", "datatypes"))
+        return declared, actual
+
+    paths: list[tuple[str, str, Any]] = []
+    for cls in ("TripleStream", "QuadStream", "GraphStream"):
+        paths.append((f"{cls}.for_rdflib() without options", "pyjelly.serialize.streams.Stream.for_rdflib", lambda k, cls=cls: k.method(k.get(K.ST, cls), "for_rdflib")))
+        paths.append((f"{cls}.for_rdflib(options) with a custom preset", "pyjelly.serialize.streams.Stream.for_rdflib", lambda k, cls=cls: k.method(k.get(K.ST, cls), "for_rdflib", k.options(lookup_preset=k.preset(21, 9, 10)))))
+        for mod, enc in ((K.EN, "TermEncoder"), (K.GS, "GenericSinkTermEncoder"), (K.RS, "RDFLibTermEncoder")):
+            paths.append((f"{cls}(encoder={enc}()) without options", "pyjelly.serialize.streams.SerializerOptions:lookup_preset-default", lambda k, cls=cls, mod=mod, enc=enc: k.new(K.ST, cls, encoder=k.new(mod, enc))))
+    for quads in (False, True):
+        def g_guess(k: K.Kit, quads: bool = quads) -> Any:
+            stmts = [tuple(C.base("a", 4 if quads else 3))]
+            sink = k.g_sink([P.generic_statement(k, st) for st in stmts])
+            return k.call(k.get(K.GS, "guess_stream"), k.call(k.get(K.GS, "guess_options"), sink), sink)
+
+        def r_guess(k: K.Kit, quads: bool = quads) -> Any:
+            stmts = [tuple(C.base("a", 4 if quads else 3))]
+            store = P.rdflib_store_for(k, 2 if quads else 1, stmts)
+            return k.call(k.get(K.RS, "guess_stream"), k.call(k.get(K.RS, "guess_options"), store), store)
+
+        paths.append((f"generic guess_stream(guess_options(sink), sink) quads={quads}", "pyjelly.integrations.generic.serialize.guess_stream", g_guess))
+        paths.append((f"rdflib guess_stream(guess_options(store), store) quads={quads}", "pyjelly.integrations.rdflib.serialize.guess_stream", r_guess))
+    for inst, construct, build in paths:
+        def scenario(it: Interp, build: Any = build) -> Any:
+            k = K.Kit(it)
+            return sizes_of(k, build(k))
+
+        it, out = _one_path(chk, scenario, inst)
+        if out[0] != "ok":
+            chk.fail(rule, inst, construct, f"construction raises {it.exc_class_name(out[1].exc)} at {out[1].site}")
+            continue
+        declared, actual = out[1]
+        if declared == actual:
+            chk.ok(rule, inst, {"declared": declared, "encoder_tables": actual})
+        else:
+            chk.fail(rule, inst, construct, f"the options row announces table sizes {declared} but the encoder of this stream works with tables of sizes {actual}: the reader sizes its tables from the header, so ids above the announced size or a different eviction order follow ({inst})")
+
+
 def check(chk: Check) -> None:
+    chk.rule("C13.TABLE.declared-sizes-are-table-sizes", "on every path on which the library itself pairs encoder and options (no options, guessed options, for_rdflib) the announced table sizes equal the encoder's table sizes", floor=16)
     chk.rule("C13.TABLE.header-bijection", "options row written == options given, options read == options row, all 9 descriptor fields (Stream.enroll -> encode_options -> get_options_and_frames)", floor=200)
     chk.rule("C13.TABLE.version", "declared version is 2 iff namespace declarations, reader derives the flag from the version, newer versions rejected", floor=18)
     chk.rule("C13.TABLE.compat", "accept/reject over all 4x8 physical/logical pairs equals the specification, on construction and on parse", floor=80)
@@ -291,6 +344,7 @@ def check(chk: Check) -> None:
     chk.trusted += ["Jelly compatibility table and limits in jstat/spec.py", "protobuf message model", "stream names are represented by one symbolic string (the analysis is independent of its content)"]
     chk.undecided += ["byte-level encoding of the options row by protobuf"]
     chk.part("header", lambda: header_bijection(chk))
+    chk.part("declared-sizes", lambda: declared_sizes(chk))
     chk.part("version", lambda: version_table(chk))
     chk.part("compat", lambda: compat_table(chk))
     chk.part("sizes", lambda: size_limits(chk))
